@@ -10,14 +10,14 @@ Definition pok (p : path) : Prop := nd p = true /\ isabs p = true.
 Lemma pok_dirname p : pok p -> pok (dirname p).
 Proof. intros [A B]. split; [apply nd_dirname | apply isabs_dirname]; assumption. Qed.
 
-Lemma I1_eta f0 s : I1 f0 s -> I1 f0 (mkSt (s_fs s) (s_log s) (s_dirs s)).
+Lemma I1_eta f0 h s : I1 f0 h s -> I1 f0 h (mkSt (s_fs s) (s_log s) (s_dirs s)).
 Proof. destruct s. auto. Qed.
 
 Section Run.
   Variable f0 : fs.
   Variable c : cfg.
   Hypothesis Dry : c_dry c = false.
-  Notation I := (I1 f0).
+  Notation I := (I1 f0 None).
 
   Lemma inv_chmod p m : inv I (mutate c (fun f => m_chmod f p m)).
   Proof.
@@ -43,16 +43,34 @@ Section Run.
   Lemma inv_do_copyfile src to_file mk :
     pok to_file -> (forall od, mk = Some od -> pok od) -> inv I (do_copyfile c src to_file mk).
   Proof.
-    intros [Hd Ha] Hmk s s' a HI H. pose proof (nd_nodd _ Hd) as Hn.
+    intros [Hd Ha] Hmk s0 s' a HI0 H. pose proof (nd_nodd _ Hd) as Hn.
     unfold do_copyfile in H. destruct src as [smode smtime dg| |]; try discriminate.
+    unfold bind at 1 in H. unfold query at 1 in H.
+    destruct (q_islink (s_fs s0) to_file) as [il|e] eqn:Qi; [|discriminate].
+    (* a link in the way is removed: the invariant holds with a hole at the destination *)
+    assert (exists s h, I1 f0 h s /\
+              (h = None \/ (h = Some (cleanp to_file) /\ lookup (s_fs s) (cleanp to_file) = None /\ cleanp to_file <> [])) /\
+              (if il then mutate c (fun f => m_unlink f to_file) else ret tt) s0 = (s, Ok tt)) as [s [h [HI [Hh E0]]]].
+    { destruct il; [|exists s0, None; auto].
+      unfold mutate. rewrite Dry. destruct (m_unlink (s_fs s0) to_file) as [f1|e] eqn:Un.
+      - exists (with_fs s0 f1), (Some (cleanp to_file)). pose proof Un as Un0.
+        apply m_unlink_spec in Un as [c1 [R1 [Ne [Nd [N1 C1]]]]].
+        assert (c1 <> []) as Nc by (unfold m_unlink, resolve_x in Un0; rewrite R1 in Un0; destruct c1; [discriminate | discriminate]).
+        apply resolve_nodd in R1; [subst c1 | exact Hn]. split; [|split; [right; auto | reflexivity]].
+        apply I1_open; auto. destruct (lookup (s_fs s0) (cleanp to_file)) as [[| |]|]; simpl; auto. eapply Nd; reflexivity.
+      - unfold bind in H. unfold mutate in H. rewrite Dry, Un in H. discriminate. }
+    unfold bind at 1 in H. rewrite E0 in H. clear E0 HI0 Qi s0.
+    assert (h = None \/ h = Some (cleanp to_file)) as Hh' by (destruct Hh as [X|[X _]]; auto).
     unfold bind, query in H.
     destruct (q_exists (s_fs s) to_file) as [[|]|e] eqn:Qe; [| |discriminate].
-    - (* the destination exists *)
+    - (* the destination exists: there is no hole *)
+      assert (h = None) as ->.
+      { destruct Hh as [X|[_ [N1 Nc]]]; [exact X|]. exfalso.
+        apply q_exists_true in Qe; [|exact Hn]. destruct Qe as [X|X]; contradiction. }
       destruct (q_isfile (s_fs s) to_file) as [[|]|e] eqn:Qf; simpl in H; try discriminate.
       destruct (lnode (s_fs s) to_file) as [n|e] eqn:Ln; [|discriminate].
       destruct (c_only_changed c && match n with Some (NFile _ t _) => smtime <=? t | _ => false end).
-      + (* preserved *)
-        unfold log, ret in H. inversion H; subst. apply I1_log_comment; [reflexivity | intros p0; discriminate | exact HI].
+      + unfold log, ret in H. inversion H; subst. apply I1_log_comment; [reflexivity | intros p0; discriminate | exact HI].
       + unfold mutate in H. rewrite Dry in H.
         destruct (m_unlink (s_fs s) to_file) as [f1|e] eqn:Un; [|discriminate]. unfold ret in H. simpl in H.
         destruct (m_write f1 to_file smode smtime dg) as [f2|e] eqn:Wr; [|discriminate].
@@ -60,13 +78,13 @@ Section Run.
         apply m_unlink_spec in Un as [c1 [R1 [Ne [Nd [_ C1]]]]]. apply resolve_nodd in R1; [subst c1 | exact Hn].
         pose proof Wr as Wr0. apply m_write_spec in Wr as [c2 [R2 [L2 [C2 _]]]].
         pose proof (m_write_nonroot _ _ _ _ _ _ _ Wr0 R2) as Nc. apply resolve_nodd in R2; [subst c2 | exact Hn].
-        apply I1_leaf_logged; [exact Hd | exact Ha | exact Nc | exact HI | eapply chg_at_trans; eauto | rewrite L2; exact Logic.I|].
+        apply (I1_leaf_logged f0 None); [exact Hd | exact Ha | exact Nc | left; reflexivity | exact HI | eapply chg_at_trans; eauto | rewrite L2; exact Logic.I|].
         right. destruct (lookup (s_fs s) (cleanp to_file)) as [[| |]|]; simpl; auto. eapply Nd; reflexivity.
     - (* it does not exist *)
-      assert (exists s1, I s1 /\ (match mk with Some outdir => dm_makedirs c outdir true | None => ret tt end) s = (s1, Ok tt)) as [s1 [HI1 E1]].
+      assert (exists s1, I1 f0 h s1 /\ (match mk with Some outdir => dm_makedirs c outdir true | None => ret tt end) s = (s1, Ok tt)) as [s1 [HI1 E1]].
       { destruct mk as [od|].
         - destruct (dm_makedirs c od true s) as [s1 [[]|e]] eqn:Dm; [|discriminate].
-          exists s1. split; [|reflexivity]. eapply inv_dm_makedirs; [apply Hmk; reflexivity | exact HI | exact Dm].
+          exists s1. split; [|reflexivity]. destruct (Hmk od eq_refl) as [A B]. eapply I1_dm_makedirs; eauto.
         - exists s. split; [exact HI | reflexivity]. }
       rewrite E1 in H. unfold ret, mutate in H. rewrite Dry in H. simpl in H.
       destruct (m_write (s_fs s1) to_file smode smtime dg) as [f2|e] eqn:Wr; [|discriminate].
@@ -75,7 +93,7 @@ Section Run.
       pose proof (m_write_nonroot _ _ _ _ _ _ _ Wr0 R2) as Nc.
       pose proof (resolve_parent _ _ _ Hn R2 Nc) as Pd.
       apply resolve_nodd in R2; [subst c2 | exact Hn].
-      apply I1_leaf_logged; [exact Hd | exact Ha | exact Nc | exact HI1 | exact C2 | rewrite L2; exact Logic.I|].
+      apply (I1_leaf_logged f0 h); [exact Hd | exact Ha | exact Nc | exact Hh' | exact HI1 | exact C2 | rewrite L2; exact Logic.I|].
       destruct Pre as [N|[m0 [t0 [d0 Lf]]]]; [left; auto | right; rewrite Lf; exact Logic.I].
   Qed.
 
@@ -93,7 +111,7 @@ Section Run.
       apply m_unlink_spec in Un as [c1 [R1 [Ne [Nd [_ C1]]]]]. apply resolve_nodd in R1; [subst c1 | exact Hn].
       pose proof Sy as Sy0. apply m_symlink_spec in Sy as [c2 [R2 [_ [L2 C2]]]].
       pose proof (m_symlink_nonroot _ _ _ _ _ Sy0 R2) as Nc. apply resolve_nodd in R2; [subst c2 | exact Hn].
-      apply I1_leaf_logged; [exact Hd | exact Ha | exact Nc | exact HI | eapply chg_at_trans; eauto | rewrite L2; exact Logic.I|].
+      apply (I1_leaf_logged f0 None); [exact Hd | exact Ha | exact Nc | left; reflexivity | exact HI | eapply chg_at_trans; eauto | rewrite L2; exact Logic.I|].
       right. destruct (lookup (s_fs s) (cleanp link)) as [[| |]|]; simpl; auto. eapply Nd; reflexivity.
     - unfold ret, try_symlink in H. rewrite Dry in H. simpl in H.
       destruct (m_symlink (s_fs s) link target) as [f2|e] eqn:Sy.
@@ -102,7 +120,7 @@ Section Run.
         pose proof (m_symlink_nonroot _ _ _ _ _ Sy0 R2) as Nc.
         pose proof (resolve_parent _ _ _ Hn R2 Nc) as Pd.
         apply resolve_nodd in R2; [subst c2 | exact Hn].
-        apply I1_leaf_logged; [exact Hd | exact Ha | exact Nc | exact HI | exact C2 | rewrite L2; exact Logic.I | left; auto].
+        apply (I1_leaf_logged f0 None); [exact Hd | exact Ha | exact Nc | left; reflexivity | exact HI | exact C2 | rewrite L2; exact Logic.I | left; auto].
       + destruct e; try discriminate. simpl in H. inversion H; subst. exact HI.
   Qed.
 
